@@ -209,6 +209,8 @@ type script struct {
 	streams int
 	// silentLater: streams after the first receive no answers to operations at all
 	silentLater bool
+	// name identifies the server in the event log (ReplaceStub: the new exchange must reach the NEW server)
+	name string
 }
 
 // Modify answers parameters and election ids at once; when all operations have arrived it plays the plan chosen
@@ -216,6 +218,7 @@ type script struct {
 func (s *script) Modify(ms spb.GRIBI_ModifyServer) error {
 	s.streams++
 	rt.Emit("srv-stream", s.streams)
+	rt.Emit("srv-name", s.name)
 	clean := s.streams > 1
 	seen := 0
 	lateParams := false
@@ -1098,6 +1101,12 @@ func faultCases(thorough bool) []faultCase {
 	for _, side := range []string{"send", "recv"} {
 		out = append(out, faultCase{side, 1, codes.Unavailable, "reset+queue-before-connect"})
 	}
+	// the server ENDS the RPC with the OK status once everything was answered (Recv returns io.EOF: no error to
+	// record, nothing pending) - the session is over all the same: Close / Reset must collect both goroutines and a
+	// later session must work
+	for _, then := range []string{"close", "reset"} {
+		out = append(out, faultCase{"recv", 2 + burst, codes.OK, then})
+	}
 	// the read side fails while the write side still accepts (and loses) messages: the receive error is the only
 	// report of the failure - also when it arrives before the application has called StartSending
 	for _, then := range []string{"close", "reset"} {
@@ -1119,7 +1128,10 @@ func faultBody(fc faultCase) func() {
 		if err := c.UseStub(stub); err != nil {
 			panic(err)
 		}
-		ferr := status.Error(fc.code, "injected stream fault")
+		var ferr error = status.Error(fc.code, "injected stream fault")
+		if fc.code == codes.OK {
+			ferr = io.EOF
+		}
 		stub.OnModify = func(st *wire.ModifyStream) {
 			if len(stub.Modifies) != 1 {
 				return // only the first stream is faulty
@@ -1166,7 +1178,7 @@ func faultBody(fc faultCase) func() {
 		case "reset", "reset+replace-stub", "reset+queue-before-connect":
 			c.Reset()
 			if fc.then == "reset+replace-stub" {
-				if err := c.ReplaceStub(wire.New(&script{streams: 1})); err != nil {
+				if err := c.ReplaceStub(wire.New(&script{streams: 1, name: "replacement"})); err != nil {
 					rt.Emit("reconnect-error", "ReplaceStub: "+err.Error())
 					return
 				}
@@ -1213,10 +1225,14 @@ func checkFault(fc faultCase) func(x *rt.Exec) []mc.Fail {
 		ev := map[string]any{}
 		var secondStream []string
 		nStreams := 0
+		lastServer := ""
 		for _, e := range x.Events {
 			ev[e.Label] = e.Val
 			if e.Label == "srv-stream" {
 				nStreams = e.Val.(int)
+			}
+			if e.Label == "srv-name" {
+				lastServer, _ = e.Val.(string)
 			}
 			if e.Label == "srv-recv" {
 				if nStreams >= 2 {
@@ -1278,6 +1294,9 @@ func checkFault(fc faultCase) func(x *rt.Exec) []mc.Fail {
 		if strings.HasPrefix(fc.then, "reset") {
 			if s, _ := ev["after-reset"].(string); s != "pending=[] results=[] send-errors=0 recv-errors=0" {
 				bad("C14/stale-state-after-reset", "%s: after Reset the client holds %s", fc, s)
+			}
+			if fc.then == "reset+replace-stub" && ev["second-exchange"] != nil && lastServer != "replacement" {
+				bad("C14/replaced-stub-not-used", "%s: after ReplaceStub + Connect the new stream was opened on the OLD server", fc)
 			}
 			want := "params,election,ops[100]"
 			wantEnd := "await=<nil> pending=[] results=[100:RIB]"
